@@ -1,15 +1,18 @@
 // Package c14: value equality, ordering and hashing obey their algebraic laws.
 //
 // (a) correspondence: types.Equal / types.Compare / types.HashOf on pools of real uniflow
-//     values (all ordered pairs of a pool) against Uniflow.Value.equal / cmp / hash of the Lean
-//     model on the wire encoding of the same values (harness/lib/valwire.go); every value is
-//     also echoed through the model's parser and printer.
+//
+//	values (all ordered pairs of a pool) against Uniflow.Value.equal / cmp / hash of the Lean
+//	model on the wire encoding of the same values (harness/lib/valwire.go); every value is
+//	also echoed through the model's parser and printer.
+//
 // (b) property oracle, independent of the model: the laws of the statement evaluated directly
-//     on the implementation's answers – reflexivity, symmetry, transitivity of Equal,
-//     Compare(a,b) = -Compare(b,a), transitivity of Compare<=0, Equal => Compare = 0,
-//     Equal => equal hashes – over all pairs and triples of the pool, plus stability: the
-//     three functions are evaluated again on the *same objects* after other values have been
-//     derived from them and mutated.
+//
+//	on the implementation's answers – reflexivity, symmetry, transitivity of Equal,
+//	Compare(a,b) = -Compare(b,a), transitivity of Compare<=0, Equal => Compare = 0,
+//	Equal => equal hashes – over all pairs and triples of the pool, plus stability: the
+//	three functions are evaluated again on the *same objects* after other values have been
+//	derived from them and mutated.
 package c14
 
 import (
@@ -43,6 +46,15 @@ func f32(bits uint32) types.Value { return types.NewFloat32(math.Float32frombits
 func str(s string) types.Value    { return types.NewString(s) }
 func bin(s string) types.Value    { return types.NewBinary([]byte(s)) }
 func errv(s string) types.Value   { return types.NewError(errors.New(s)) }
+
+// wrapErr is an error with its own message that unwraps to another error.
+type wrapErr struct {
+	inner error
+	msg   string
+}
+
+func (w wrapErr) Error() string { return w.msg }
+func (w wrapErr) Unwrap() error { return w.inner }
 
 // mutMap builds a *mutableMap holding the pairs (the mutable view of the same content).
 func mutMap(pairs ...types.Value) types.Map {
@@ -112,6 +124,15 @@ func scalars() []item {
 	for _, s := range []string{"", "a", "boom", "\x01", le1x8} {
 		add("error", errv(s))
 	}
+	// errors that WRAP another error of the pool (different Go error values, related by errors.Is /
+	// Unwrap, with the same or a different message): Equal/Compare/Hash must go by the message only.
+	// (added after the seeded change c14b – an errors.Is fast path in Error.Equal – slipped past)
+	base := errors.New("boom")
+	add("error", types.NewError(base))
+	add("error", types.NewError(fmt.Errorf("ctx: %w", base)))
+	add("error", types.NewError(fmt.Errorf("%w", base)))
+	add("error", types.NewError(errors.Join(base)))
+	add("error", types.NewError(wrapErr{base, "a"}))
 	xs = append(xs, mk("binary", types.NewBinary(nil)))
 	return xs
 }
